@@ -9,8 +9,9 @@ def run(ctx, rep):
     run_contracts(ctx, rep)
     from ..rules_contract import transient_callers
     transient_callers(rep, ctx.prog("Q"))
-    from ..rules_r5 import byte_guard
+    from ..rules_r5 import byte_guard, caller_ratchet
     byte_guard(rep, ctx.prog("Q"))
+    caller_ratchet(rep, ctx.prog("Q"))
     if ctx.tier == "thorough":
         from ..rules_ranged import ranged_checked
         ranged_checked(ctx, rep)
